@@ -5,6 +5,7 @@ import (
 	"encoding/json"
 	"fmt"
 	"strings"
+	"unicode/utf8"
 
 	"github.com/varlink/go/varlink"
 )
@@ -82,7 +83,24 @@ func (g *Rng) methodString(r registrySpec) string {
 	if len(r.ifaces) > 0 {
 		reg = r.ifaces[g.Intn(len(r.ifaces))].name
 	}
-	switch g.Intn(14) {
+	switch g.Intn(15) {
+	case 14: // long names (no length limit anywhere: the error replies carry them back in full)
+		n := []int{255, 256, 300, 1000, 5000}[g.Intn(5)]
+		long := strings.Repeat(g.Pick([]string{"a", "Zz", "日本", "x-"}), n)[:n]
+		for !utf8.ValidString(long) {
+			long = long[:len(long)-1]
+		}
+		switch g.Intn(3) {
+		case 0:
+			return "org.long." + long + ".M" // unknown interface
+		case 1:
+			return "org.varlink.service." + long // unknown method of the built-in interface
+		default:
+			if reg != "" {
+				return reg + "." + long // method of a registered interface
+			}
+			return long + ".M"
+		}
 	case 0, 1, 2, 3:
 		if reg != "" {
 			return reg + "." + g.Pick([]string{"M", "Ping", "x", "", "GetInfo", "日本"})
